@@ -299,7 +299,7 @@ def finish(prop, tier, seed, mod, merged, findings, wall, cfg, work, replay=Fals
         "monitor_error_samples": merged["monitor_error_samples"][:4],
         "classes": merged["classes"],
         "anchor_reach": {"ranges": len(reach_all), "ranges_reached": sum(1 for v in reach_all.values() if v),
-                         "functions_entered_per_anchor_range (def line within the range +-45 lines, summed over shards)": reach_all},
+                         "functions_entered_per_anchor_range (function body overlapping the range +-45 lines, summed over shards)": reach_all},
         "notes": {k: v for k, v in merged["notes"].items() if not k.startswith("anchor_reach_")},
         "known_findings_seen": {k: v["count"] for k, v in known_hits.items()},
         "violation_records": merged["record_count"],
